@@ -1021,7 +1021,7 @@ VARIANTS = [
 
 META = {
     "design_ref": "DESIGN.md section 3, C20",
-    "technique": "path-condition dominance (skip-file test, ignore-comment guards on text splices) + regex-AST sibling cross-check + text-provenance dataflow; adopted scheduler (C10 R10.6) and write-guard (C03 R3.2) clauses",
+    "technique": "path-condition dominance (skip-file test, ignore-comment guards on text splices) + regex-AST sibling cross-check + text-provenance dataflow; adopted scheduler (C10 R10.6) and write-guard (C03 R3.2) clauses; mandatory-factor analysis of substring pre-filters (regex AST); scheduled-flag idiom traced to the scheduler; adopted overlap predicate (C10 R10.0) and widened-deletion rule (C03 R3.9)",
     "level_text": ("Decides on the current source that the skip-file test dominates all processing of the unmodified "
                    "input and returns it unchanged, that the two opt-out grammars agree, that has_ignore_comment has the "
                    "shape 'True iff some line overlapping the range matches', and that every position-based rebuild of "
